@@ -1,12 +1,19 @@
 // K1 driver (C19, unit 5): the real unifex::create_basic_sender (C++20): recursive mutex + phase +
 // recursion counter, events start / callback / stop, safe (weak_ptr) and unsafe callbacks.
 // program: <first: sync|inl|safe|unsafe|none> <second: safe|nosecond> <stop|nostop|prestop>
+//          [<breq: nobs|valstop|stopval> [<restop|norestop>]]
 //   first  = how the value completion arrives: `sync` op.set_value() directly in the start event;
 //            `inl` the start event invokes its own callback synchronously (recursion);
 //            `safe`/`unsafe` thread 1 invokes a safe/unsafe callback made in the start event;
 //            `none` no natural completion (only stop completes)
 //   second = thread 2 invokes another SAFE callback at any time after start (it may arrive before,
 //            while or after the operation completes: a late safe callback must be a no-op)
+//   breq   = the body event that calls op.set_value() (the start event for `sync`, otherwise every
+//            callback event) also calls request_stop() on the operation's OWN stop source from inside
+//            the event: `valstop` right after the set_value, `stopval` right before it (the stop
+//            callback then runs re-entrantly on the same thread, recursive mutex held, and for
+//            `stopval` completes the operation with done: the later set_value must be ignored)
+//   restop = the stop event calls request_stop() again (a no-op)
 // virtual threads: 0 connect + start; 1 first callback; 2 second (safe) callback; 3 stop request;
 // 4 the receiver's owner: destroys the operation once the receiver completed.  After destruction
 // the storage is zeroed with phase_ = completed_normally so that a late access through the (dead)
@@ -21,8 +28,19 @@ struct bctl {
   std::atomic<int> slot{0};   // unsafe callback only: 1 armed, 2 taken by the caller, 3 removed by the stop event
   char first = 's';
   bool second = false;
+  char breq = 'n';            // 'v' set_value then request_stop, 's' request_stop then set_value
+  bool restop = false;
   bool armed = false;
+  inplace_stop_source* ext = nullptr;   // the source the operation's receiver listens to
   std::function<void()> cb1, cb2;
+  // the body completes with a value, possibly requesting stop on its own source around it
+  template <typename Op>
+  void value(Op& op) {
+    if (breq == 's') { dsched::action("body.reqstop"); ext->request_stop(); }
+    dsched::action("body.set_value");
+    op.set_value(7);
+    if (breq == 'v') { dsched::action("body.reqstop"); ext->request_stop(); }
+  }
 };
 
 auto make_sender(bctl* c) {
@@ -31,7 +49,7 @@ auto make_sender(bctl* c) {
       dsched::action("body.start");
       if (c->second) c->cb2 = safe_callback<>(op);
       if (c->first == 's') {
-        op.set_value(7);
+        c->value(op);
       } else if (c->first == 'i') {
         auto cb = safe_callback<>(op);
         cb();
@@ -46,20 +64,22 @@ auto make_sender(bctl* c) {
       c->armed = true;
     } else if constexpr (event.is_callback) {
       dsched::action("body.callback");
-      op.set_value(7);
+      c->value(op);
     } else if constexpr (event.is_stop) {
       dsched::action("body.stop");
+      if (c->restop) { dsched::action("body.reqstop"); c->ext->request_stop(); }
       if (c->first == 'u') {
         int e = 1;
-        if (c->slot.compare_exchange_strong(e, 3, std::memory_order_acq_rel)) op.set_done();
+        if (c->slot.compare_exchange_strong(e, 3, std::memory_order_acq_rel)) { dsched::action("body.set_done"); op.set_done(); }
       } else {
+        dsched::action("body.set_done");
         op.set_done();
       }
     }
   });
 }
 
-std::vector<std::function<void()>> make_threads(char first, bool second, const std::string& stopmode) {
+std::vector<std::function<void()>> make_threads(char first, bool second, const std::string& stopmode, char breq, bool restop) {
   using sender_t = decltype(make_sender(nullptr));
   using op_t = decltype(unifex::connect(std::declval<sender_t>(), std::declval<vh::root_receiver<>>()));
   struct Shared {
@@ -72,7 +92,8 @@ std::vector<std::function<void()>> make_threads(char first, bool second, const s
     ~Shared() { if (mem) ::operator delete(mem, std::align_val_t(alignof(op_t))); }
   };
   auto sh = std::make_shared<Shared>();
-  sh->ctl.first = first; sh->ctl.second = second;
+  sh->ctl.first = first; sh->ctl.second = second; sh->ctl.breq = breq; sh->ctl.restop = restop;
+  sh->ctl.ext = &sh->ext;
   std::vector<std::function<void()>> th;
   th.push_back([sh, stopmode] {
     dsched::name_range(&sh->ext.state_, 1, "ext.state");
@@ -136,25 +157,38 @@ int main(int argc, char** argv) {
   char first = f == "sync" ? 's' : f == "inl" ? 'i' : f == "safe" ? 'f' : f == "unsafe" ? 'u' : 'n';
   bool second = cli.prog.size() > 1 && cli.prog[1] == "safe";
   std::string stopmode = cli.prog.size() > 2 ? cli.prog[2] : "nostop";
-  auto make = [&]() { return make_threads(first, second, stopmode); };
+  std::string bq = cli.prog.size() > 3 ? cli.prog[3] : "nobs";
+  char breq = bq == "valstop" ? 'v' : bq == "stopval" ? 's' : 'n';
+  bool restop = cli.prog.size() > 4 && cli.prog[4] == "restop";
+  auto make = [&]() { return make_threads(first, second, stopmode, breq, restop); };
   auto monitor = [&](const dsched::Result& r) -> std::string {
     int roots = 0, bodies = 0, stops = 0, starts = 0;
     bool destroyed = false, completed = false;
+    // phase finished: the body has called set_value / set_done (the first such call is the decision)
+    std::string decided, root;
     std::string bad;
     auto has = [](const std::string& e, const char* s) { return e.find(s) != std::string::npos; };
     for (auto& e : r.trace) {
       bool own = e.rfind("t4 ", 0) == 0;
       bool touches = !own && (has(e, " b.mutex ") || has(e, " b.cb") || has(e, "!body."));
-      if (has(e, "!root ")) { ++roots; completed = true; continue; }
+      if (has(e, "!root ")) { ++roots; completed = true; if (root.empty()) root = has(e, "!root value") ? "value" : has(e, "!root done") ? "done" : "other"; continue; }
       if (has(e, "!op_destroyed")) { destroyed = true; continue; }
       const char* what = has(e, " b.mutex ") ? "MUTEX" : has(e, " b.cb") ? "CALLBACK" : "BODY";
       if (touches && destroyed && bad.empty()) bad = std::string("USE-AFTER-DESTROY-") + what + ": " + e;
       if (touches && completed && !destroyed && bad.empty()) bad = std::string("LATE-ACCESS-") + what + ": " + e;
       if (has(e, "!body.start")) ++starts;
-      if (has(e, "!body.callback")) ++bodies;
-      if (has(e, "!body.stop")) { ++stops; if (starts == 0 && bad.empty()) bad = "STOP-EVENT-BEFORE-START: " + e; }
+      if (has(e, "!body.callback")) { ++bodies; if (!decided.empty() && bad.empty()) bad = "CALLBACK-EVENT-AFTER-FINISH: (" + decided + " chosen) " + e; }
+      if (has(e, "!body.stop")) {
+        ++stops;
+        if (starts == 0 && bad.empty()) bad = "STOP-EVENT-BEFORE-START: " + e;
+        if (!decided.empty() && bad.empty()) bad = "STOP-EVENT-AFTER-FINISH: (" + decided + " chosen) " + e;
+      }
+      if (has(e, "!body.set_value") && decided.empty()) decided = "value";
+      if (has(e, "!body.set_done") && decided.empty()) decided = "done";
     }
     if (!bad.empty()) return bad;
+    if (roots == 1 && !decided.empty() && root != decided)
+      return "FIRST-DECISION-OVERRIDDEN: body chose " + decided + " first, receiver got " + root;
     if (roots != 1) return "COMPLETIONS: root completions=" + std::to_string(roots);
     if (stops > 1) return "STOP-EVENT-TWICE: " + std::to_string(stops);
     if (starts > 1) return "START-EVENT-TWICE: " + std::to_string(starts);
